@@ -3,6 +3,8 @@
 //! Parts (all on the REAL smoltcp `Interface`, observed only at the device and at the sockets):
 //!  * tx/S1  single-datagram sweep (E2): every UDP payload length x MTU x medium, one datagram,
 //!           polled to quiescence, frames checked by an independent reassembler.
+//!           S1 and S1b also run with the device declaring checksum capabilities ipv4=Tx / Rx /
+//!           None and all=Tx (CSUM_VARIANTS); the header checksum is judged iff the stack computes it.
 //!  * tx/S1b sequential pairs (E2): two datagrams (udp / raw / ingress-triggered echo reply) one
 //!           after the other, each run to quiescence (state left behind by the first must not
 //!           leak into the second).
@@ -28,7 +30,7 @@ use crate::core::*;
 use crate::sim::*;
 use serde_json::{json, Value};
 use smoltcp::iface::{Config, Interface, SocketHandle, SocketSet};
-use smoltcp::phy::Medium;
+use smoltcp::phy::{Checksum, ChecksumCapabilities, Medium};
 use smoltcp::socket::{raw, udp};
 use smoltcp::time::Instant;
 use smoltcp::wire::{EthernetAddress, HardwareAddress, IpAddress, IpCidr, IpProtocol, IpVersion};
@@ -68,21 +70,27 @@ impl Net {
     /// (Config::random_seed is chosen by inverting smoltcp's PCG32; the result is verified
     /// through the verif_digest hook and the next salt is tried when an earlier draw was zero).
     pub fn new_id(eth: bool, ip_mtu: usize, id_start: Option<u16>) -> Result<Net, String> {
-        let Some(want) = id_start else { return Net::new_seed(eth, ip_mtu, 0x5eed_c12) };
+        Net::new_full(eth, ip_mtu, id_start, 0)
+    }
+    /// ... and with the device declaring checksum capabilities variant `csum` (see CSUM_VARIANTS)
+    pub fn new_full(eth: bool, ip_mtu: usize, id_start: Option<u16>, csum: u8) -> Result<Net, String> {
+        let Some(want) = id_start else { return Net::new_seed(eth, ip_mtu, 0x5eed_c12, csum) };
         for salt in 0..64u64 {
             // rand_u16 = (n ^ (n >> 16)) as u16; with n < 0x10000 that is n itself; ipv4_id is the
             // third draw of Interface::new (802.15.4 sequence number, 6LoWPAN tag, ipv4_id)
             let seed = crate::sim::seed_for_nth_output(want as u32, 3, salt);
-            let net = Net::new_seed(eth, ip_mtu, seed)?;
+            let net = Net::new_seed(eth, ip_mtu, seed, csum)?;
             if net.iface.verif_digest().contains(&format!(" ipv4_id={} ", want)) {
                 return Ok(net);
             }
         }
         Err(format!("could not find a seed that starts the IPv4 identification counter at {}", want))
     }
-    fn new_seed(eth: bool, ip_mtu: usize, seed: u64) -> Result<Net, String> {
+    fn new_seed(eth: bool, ip_mtu: usize, seed: u64, csum: u8) -> Result<Net, String> {
         let medium = if eth { Medium::Ethernet } else { Medium::Ip };
         let mut dev = SimDevice::new(medium, if eth { ip_mtu + 14 } else { ip_mtu });
+        // the interface copies the capabilities when it is created
+        dev.checksum = csum_caps(csum);
         let hw = if eth { HardwareAddress::Ethernet(EthernetAddress(OUR_MAC)) } else { HardwareAddress::Ip };
         let mut cfg = Config::new(hw);
         cfg.random_seed = seed;
@@ -174,6 +182,38 @@ impl Net {
     }
 }
 
+/// Device checksum capability variants of the tx sweeps (index = `Step::Csum`).
+pub(crate) const CSUM_VARIANTS: [&str; 5] = ["default", "ipv4=Tx", "ipv4=Rx", "ipv4=None", "all=Tx"];
+
+pub(crate) fn csum_caps(v: u8) -> ChecksumCapabilities {
+    let mut c = ChecksumCapabilities::default();
+    match v {
+        1 => c.ipv4 = Checksum::Tx,
+        2 => c.ipv4 = Checksum::Rx,
+        3 => c.ipv4 = Checksum::None,
+        4 => {
+            c.ipv4 = Checksum::Tx;
+            c.udp = Checksum::Tx;
+            c.tcp = Checksum::Tx;
+            c.icmpv4 = Checksum::Tx;
+            c.icmpv6 = Checksum::Tx;
+        }
+        _ => {}
+    }
+    c
+}
+
+/// Does a device with this capability value leave the checksum to the stack on transmit? Decided
+/// on the enum value itself (not through smoltcp's `Checksum::tx()`, which is code under test).
+pub(crate) fn stack_computes_on_tx(c: &Checksum) -> bool {
+    match c {
+        Checksum::Both | Checksum::Tx => true,
+        Checksum::Rx | Checksum::None => false,
+        #[allow(unreachable_patterns)]
+        _ => false,
+    }
+}
+
 /// Stable panic site for signatures: `core::panic_site()` (file without line), additionally cut
 /// at the crate's `src/` so that the signature does not depend on where the subject tree lives.
 pub(crate) fn stable_site(site: &str) -> String {
@@ -203,7 +243,7 @@ pub fn run(tier: Tier) -> i32 {
         smoltcp::config::ASSEMBLER_MAX_SEGMENT_COUNT
     ));
     rep.assumptions.push("MTU values are IP MTUs; on Medium::Ethernet the device MTU is 14 bytes larger and two neighbours (peer 10.0.0.2 / 02:..:02 and B 10.0.0.3 / 02:..:03) are pre-resolved by unsolicited ARP replies".into());
-    rep.assumptions.push("device checksum capabilities = default (everything computed/verified in software)".into());
+    rep.assumptions.push("device checksum capabilities = default (everything computed/verified in software) except in tx/S1 and tx/S1b, which also run with ipv4=Tx, ipv4=Rx, ipv4=None and all=Tx; the IPv4 header checksum is judged iff the capability value is Both or Tx (the stack computes it)".into());
     tx::run_s1(&mut rep, tier);
     tx::run_s1b(&mut rep, tier);
     tx::run_s1c(&mut rep, tier);
